@@ -1,6 +1,7 @@
 package main
 
 import (
+	"bytes"
 	"encoding/json"
 	"fmt"
 
@@ -32,7 +33,9 @@ func caseLines(r *Replay) []J {
 	for _, c := range r.Case {
 		b, _ := json.Marshal(c)
 		var j J
-		json.Unmarshal(b, &j)
+		dec := json.NewDecoder(bytes.NewReader(b))
+		dec.UseNumber()
+		dec.Decode(&j)
 		out = append(out, j)
 	}
 	return out
